@@ -243,6 +243,104 @@ inline Result check_roundtrip(const GeomDef &g, const EncCfg &cfg, mc::Ctx &ctx,
   return R;
 }
 
+// ---------------------------------------------------------------- C07 end to end
+// Encodes |g| (which must carry a float3 NORMAL attribute with qbits > 0) and
+// checks the property's statement on every decoded normal: finite, unit length
+// within 1e-6, angle to the source direction <= 3*(2/(2^q-2)) + 2e-6. Decoded
+// points are matched to source points through their position (the position
+// attribute must be distinct per vertex); at a vertex with several normals
+// (seams) each decoded normal must be within the bound of one of the source
+// normals of that vertex and vice versa.
+inline void check_normals_end_to_end(const GeomDef &g, const EncCfg &cfg, int normal_att, int q, mc::Ctx &ctx) {
+  std::unique_ptr<Mesh> mesh;
+  std::unique_ptr<PointCloud> cloud;
+  if (g.is_mesh) mesh = build_mesh(g);
+  else cloud = build_cloud(g);
+  const PointCloud &src = g.is_mesh ? *mesh : *cloud;
+  EncResult enc = encode(g, src, mesh.get(), cfg);
+  ctx.count("encode_calls");
+  if (!enc.ok || !enc.pred_status.empty()) {
+    ctx.count("encode_reported_failure");
+    return;
+  }
+  DecResult dec = decode(enc.bytes);
+  if (!dec.ok) {
+    ctx.count("decode_failed_(C01_matter)");
+    return;
+  }
+  ctx.count("decode_ok");
+  ctx.state(mc::hash_bytes(enc.bytes.data(), enc.bytes.size()));
+  const PointAttribute *dn = dec.pc->GetAttributeByUniqueId(g.atts[normal_att].uid);
+  const PointAttribute *dp = dec.pc->GetNamedAttribute(GeometryAttribute::POSITION);
+  const PointAttribute *sn = src.GetAttributeByUniqueId(g.atts[normal_att].uid);
+  const PointAttribute *sp = src.GetNamedAttribute(GeometryAttribute::POSITION);
+  const std::string ctxt = text(g) + " " + text(cfg);
+  if (!dn || !dp || dn->data_type() != DT_FLOAT32 || dn->num_components() != 3) {
+    ctx.fail("e2e:decoded-normal-attribute-missing-or-wrong-shape", ctxt);
+    return;
+  }
+  const long double bound = 3.0L * (2.0L / (powl(2.0L, q) - 2.0L)) + 2e-6L;
+  auto angle = [](const float *a, const float *b) {
+    long double x[3] = {a[0], a[1], a[2]}, y[3] = {b[0], b[1], b[2]};
+    const long double mx = std::max(fabsl(x[0]), std::max(fabsl(x[1]), fabsl(x[2])));
+    const long double my = std::max(fabsl(y[0]), std::max(fabsl(y[1]), fabsl(y[2])));
+    for (int k = 0; k < 3; ++k) {
+      x[k] /= mx;
+      y[k] /= my;
+    }
+    const long double cx = x[1] * y[2] - x[2] * y[1], cy = x[2] * y[0] - x[0] * y[2], cz = x[0] * y[1] - x[1] * y[0];
+    return atan2l(sqrtl(cx * cx + cy * cy + cz * cz), x[0] * y[0] + x[1] * y[1] + x[2] * y[2]);
+  };
+  auto posv = [](const PointAttribute *a, PointIndex p, float *out) {
+    if (a->data_type() == DT_FLOAT32) a->GetMappedValue(p, out);
+    else {
+      int32_t v[3];
+      a->ConvertValue<int32_t>(a->mapped_index(p), 3, v);
+      for (int k = 0; k < 3; ++k) out[k] = (float)v[k];
+    }
+  };
+  std::vector<bool> source_covered(src.num_points(), false);
+  for (PointIndex p(0); p < dec.pc->num_points(); ++p) {
+    float n[3], pp[3];
+    dn->GetMappedValue(p, n);
+    posv(dp, p, pp);
+    if (!std::isfinite(n[0]) || !std::isfinite(n[1]) || !std::isfinite(n[2])) {
+      ctx.fail("e2e:decoded-normal-not-finite", ctxt);
+      return;
+    }
+    const long double len = sqrtl((long double)n[0] * n[0] + (long double)n[1] * n[1] + (long double)n[2] * n[2]);
+    if (fabsl(len - 1.0L) > 1e-6L) {
+      ctx.fail("e2e:decoded-normal-not-unit-length", ctxt);
+      return;
+    }
+    long double best = 1e9L;
+    for (PointIndex s(0); s < src.num_points(); ++s) {
+      float sp3[3], sn3[3];
+      posv(sp, s, sp3);
+      if (fabsf(sp3[0] - pp[0]) > 2e-3f || fabsf(sp3[1] - pp[1]) > 2e-3f || fabsf(sp3[2] - pp[2]) > 2e-3f) continue;
+      sn->GetMappedValue(s, sn3);
+      const long double a = angle(sn3, n);
+      if (a <= bound) source_covered[s.value()] = true;
+      best = std::min(best, a);
+    }
+    ctx.count("e2e_normals_compared");
+    if (best > bound) {
+      char b[200];
+      snprintf(b, sizeof b, "decoded normal (%.9g,%.9g,%.9g) at point %u: smallest angle to a source normal of that vertex %.6Lg rad > bound %.6Lg rad (q=%d) :: ",
+               n[0], n[1], n[2], p.value(), best, bound, q);
+      ctx.fail(best > 1e8L ? "e2e:decoded-point-matches-no-source-vertex" : "e2e:angle-exceeds-bound", b + ctxt);
+      return;
+    }
+  }
+  // every source normal that the decoder could keep (its point is used by a face, or the geometry is a cloud / sequential) is represented
+  if (!g.is_mesh || gs::stream_method(enc.bytes) == MESH_SEQUENTIAL_ENCODING)
+    for (size_t i = 0; i < source_covered.size(); ++i)
+      if (!source_covered[i]) {
+        ctx.fail("e2e:source-normal-not-represented", ctxt);
+        return;
+      }
+}
+
 }  // namespace rt
 
 #endif  // VERIF_CHECKS_ROUNDTRIP_ORACLE_H_
